@@ -200,10 +200,19 @@ func (g *FnGen) coveredTyped(a string, pats []*locPat, t types.Type) string {
 	return or(ds...)
 }
 
-func (g *FnGen) frameAxiomPats(pats []*locPat, sort, old, nw, nextPre string) string {
+func (g *FnGen) frameAxiomPats(pats []*locPat, sort, old, nw, nextPre string, stable ...string) string {
 	cov := g.coveredPrim("r", pats, sort)
-	return fmt.Sprintf("(forall ((r Ref)) (! (=> (and (< (rid r) %s) (not %s)) (= (select %s r) (select %s r))) :pattern ((select %s r))))",
-		nextPre, cov, nw, old, nw)
+	pre := app("<", app("rid", "r"), nextPre)
+	if len(stable) > 0 {
+		// cells of address-taken locals that the loop does not assign keep their value as well
+		ds := []string{pre}
+		for _, st := range stable {
+			ds = append(ds, eq(app("rid", "r"), app("rid", st)))
+		}
+		pre = or(ds...)
+	}
+	return fmt.Sprintf("(forall ((r Ref)) (! (=> (and %s (not %s)) (= (select %s r) (select %s r))) :pattern ((select %s r))))",
+		pre, cov, nw, old, nw)
 }
 
 func (g *FnGen) evalPats(env *Env, mods []Clause) []*locPat {
@@ -214,8 +223,8 @@ func (g *FnGen) evalPats(env *Env, mods []Clause) []*locPat {
 	return pats
 }
 
-func (g *FnGen) frameAxiom(env *Env, mods []Clause, sort, old, nw, nextPre string) string {
-	return g.frameAxiomPats(g.evalPats(env, mods), sort, old, nw, nextPre)
+func (g *FnGen) frameAxiom(env *Env, mods []Clause, sort, old, nw, nextPre string, stable ...string) string {
+	return g.frameAxiomPats(g.evalPats(env, mods), sort, old, nw, nextPre, stable...)
 }
 
 // fnPats: the function's own modifies clause evaluated in the entry state.
